@@ -224,6 +224,22 @@ def gen_cases(tier, seed):
         shells = [dict(s_, t="c", k=[[r[0]] for r in s_["k"]]) for s_ in (p1 + p2)]
         order = [shells[0], shells[1], shells[2], shells[3]] if i % 4 < 2 else [shells[0], shells[2], shells[1], shells[3]]
         cases.append({"kind": "kernel", "shells": order, "classes": sorted(set(c1 + c2)) + ["ls:%d%d%d%d" % tuple(s_["l"] for s_ in order)], "cost": 60})
+    # core s quartets of a molecule that sits far from the coordinate origin (a fragment of a large system, coordinates
+    # that were never centred): the integrals depend on differences of centres only
+    for i in range(8 if tier == "quick" else 48):
+        rng = bases.rng_for("C04", seed, tier, "far-core-s", i)
+        R = rng.normal(size=3)
+        R = R / np.linalg.norm(R) * float(10 ** rng.uniform(2.5, 4.0))
+        nat = 1 + i % 2
+        cen = [R + rng.normal(size=3) * (0.0 if a == 0 else 1.2) for a in range(nat)]
+        shells = []
+        for j in range(4):
+            K = int(rng.integers(1, 4))
+            e = sorted((float(10 ** rng.uniform(2.5, 5.0)) for _ in range(K)), reverse=True)
+            if j == 3 and i % 4 >= 2:
+                e = [float(10 ** rng.uniform(-0.5, 1.0))]
+            shells.append({"l": 0, "c": [float(v) for v in cen[(j // 2) % nat if i % 4 < 2 else j % nat]], "e": e, "k": [[float(rng.uniform(0.2, 1.0))] for _ in e], "t": "c"})
+        cases.append({"kind": "kernel", "shells": shells, "classes": ["far-from-origin", "core-s", "ls:0000", "atoms:%d" % nat], "cost": 40})
     # high angular momentum AND three primitives on every shell (the largest intermediates of the recursions)
     big = [(3, 2, 3, 2), (3, 3, 2, 2), (3, 2, 2, 2), (2, 3, 3, 2)] if tier == "quick" else [(3, 2, 3, 2), (3, 3, 2, 2), (3, 2, 2, 2), (2, 3, 3, 2), (3, 3, 3, 2), (2, 2, 2, 2), (3, 1, 3, 2), (3, 3, 3, 3)]
     for i, ls in enumerate(big):
